@@ -382,8 +382,10 @@ class NetworkService(ModelElement):
         """
         assert name is not None
 
-        # check uniqueness
-        all_names = [n.name for n in self._interfaces]
+        # check uniqueness against the interfaces currently in the model (the list cached on this
+        # object is not updated by add_interface and may be stale)
+        all_names = [self.topo.graph_model.get_node_properties(node_id=iid)[1].get(ABCPropertyGraph.PROP_NAME)
+                     for iid in self.topo.graph_model.get_all_ns_or_link_connection_points(link_id=self.node_id)]
         if name in all_names:
             raise TopologyException(f'Interface {name} is not unique within a network service')
         iff = Interface(name=name, node_id=node_id, parent_node_id=self.node_id,
